@@ -86,6 +86,13 @@ def _dev(x):
     return None if d is None else d.type
 
 
+def _safe_empty(v):
+    try:
+        return bool(v.is_empty())
+    except Exception:  # noqa: BLE001
+        return False
+
+
 def _names(x):
     try:
         n = x.names
@@ -116,7 +123,9 @@ def snap(x, seen=None):
             if isinstance(v, torch.Tensor):
                 out["view"].append([key, {"k": "leaf", "shape": list(v.shape), "dev": v.device.type}])
             elif isinstance(v, TensorDictBase) or hasattr(v, "batch_size"):
-                out["view"].append([key, {"k": "shape-only", "bs": list(v.batch_size), "dev": _dev(v)}])
+                out["view"].append([key, {"k": "shape-only", "bs": list(v.batch_size), "dev": _dev(v),
+                                          "nt": isinstance(v, (NonTensorData, NonTensorStack)),
+                                          "empty": _safe_empty(v)}])
         return out
     if isinstance(x, (NonTensorData, NonTensorStack)):
         seen[id(x)] = seen.get(id(x), 0) + 1
@@ -493,7 +502,8 @@ def gen_idx(rng, bs, good=True):
     n = bs[0]
     r = rng.random()
     if not good:
-        return rng.choice([["int", n + 1], ["tup", [["int", 0]] * (len(bs) + 2)], ["list", [n + 3]]])
+        # (indices longer than the batch rank are C03's finding D25 and are left to C03)
+        return rng.choice([["int", n + 1], ["int", -n - 1], ["list", [n + 3]]])
     if r < 0.3 and n > 0:
         return ["int", rng.randrange(-n, n)]
     if r < 0.55:
@@ -805,8 +815,21 @@ def holds_tensor(s):
     if s["k"] == "leaf":
         return True
     if s["k"] == "lazy":
-        return any(holds_tensor(m) for m in s.get("members", []))
+        # LazyStackedTensorDict.is_empty() looks at the keys COMMON to all members
+        return any(holds_tensor(v) for _, v in s.get("view", []))
+    if s["k"] == "shape-only":
+        return not (s.get("nt") or s.get("empty"))
     return any(holds_tensor(v) for _, v in (s.get("ents") or []))
+
+
+def idx_has_int_array(d):
+    if not d:
+        return False
+    if d[0] in ("ten", "list"):
+        return True
+    if d[0] == "tup":
+        return any(idx_has_int_array(x) for x in d[1])
+    return False
 
 
 def signature(step, problem):
@@ -832,12 +855,25 @@ def signature(step, problem):
                    for i in range(len(at) + 1))
     # the entry (or one of its ancestors below the handle) did not exist before the call: auto-created by an index write
     created_by_call = any(sub_snapshot(pre, at[:i]) is None for i in range(1, len(at) + 1))
+    target_lazy = target if target.get("k") == "lazy" else None
+    if target_lazy is None:
+        for i in range(len(at) + 1):
+            anc = sub_snapshot(pre, at[:i])
+            if anc is not None and anc.get("k") == "lazy":
+                target_lazy = anc
+                break
+    hetero = target_lazy is not None and len({m.get("dev") for m in target_lazy.get("members", [])} | {target_lazy.get("dev")}) > 1
     if cls == "index" and (was_nt_zero or nt_above):
         sig["pattern"] = "nontensor-zero-batch-restack"
     elif what == "names-undefined" and victim_post is not None and victim_post["k"] == "lazy":
         sig["pattern"] = "lazy-names-undefined"
     elif in_lazy and cls == "write" and nested_key and what in ("entry-shape", "entry-device", "nested-batch", "nested-device"):
         sig["pattern"] = "lazy-nested-key-validated-at-root"
+    elif in_lazy and cls == "write" and hetero and what in ("entry-device", "nested-device"):
+        sig["pattern"] = "lazy-heterogeneous-devices-validated-at-root"
+    elif o == "setitem_idx" and target.get("k") == "lazy" and idx_has_int_array(op.get("idx")) and \
+            what in ("nested-device", "entry-device", "nested-batch", "names-count"):
+        sig["pattern"] = "lazy-tensor-index-replaces-members"
     elif cls == "rename" and o != "flatten_keys" and nested_key and \
             what in ("entry-shape", "entry-device", "nested-batch", "nested-device"):
         sig["pattern"] = "rename-into-nested-unvalidated"
@@ -1022,6 +1058,7 @@ def replay_case(case):
         step["problems"] = coherent(S2)
         if op["op"] == "getitem" and res[0] == "ok":
             rs = snap(res[1])
+            step["result"] = rs
             step["result_problems"] = coherent(rs)
         steps.append(step)
         S = S2
@@ -1174,54 +1211,61 @@ def main(R):
                 for p in st.get("problems") or []:
                     sg = signature(st, p)
                     R.oracle_fail("coherence:" + sg["what"], dict(case, ops=case["ops"][:i + 1]), {"problem": p, "exception": st.get("exc"), "corpus": fn}, sg)
-    results = run_pool(jobs, procs)
-    lines, metas = [], []
+                for p in st.get("result_problems") or []:
+                    R.oracle_fail("indexed-result:" + p["what"], dict(case, ops=case["ops"][:i + 1]), {"problem": p, "corpus": fn}, result_signature(st, p))
+    inside = 0
     new_patterns = {}
-    for res in results:
-        for k, v in res["hist"].items():
-            R.count(k, v)
-        if res["init_problems"]:
-            R.oracle_fail("coherence:constructor", {"fixture": None, "seed": res["seed"], "ops": []}, {"problems": res["init_problems"][:3]},
-                          {"call": "constructor", "pattern": "none"})
-        for key in res["keys"]:
-            R.case(key, nontrivial=True, sample=None)
-        if res["sample"] is not None and len(R.samples) < 6:
-            R.samples.append(res["sample"])
-        for f in res["fails"]:
-            sg = f["sig"]
-            case = f["case"]
-            if sg["pattern"] == "none" and len(new_patterns) < 6:
-                k = (sg["call"], sg["what"], sg["outcome"])
-                if k not in new_patterns:
-                    new_patterns[k] = 1
-                    case = shrink(case, sg["pattern"], sg["what"])
-            R.oracle_fail(f["label"], case, f["detail"], sg)
-        for ln in res["lines"]:
-            lines.append(ln["line"])
-            metas.append(ln)
-    if ok and lines:
-        mres = R.model(lines, shards=procs)
-        inside = 0
-        for ln, r in zip(metas, mres):
-            R.traces += 1
-            if not isinstance(r, list) or (r and r[0] == "decode-error"):
-                R.mismatch("decode", ln["case"], "line accepted by the code", r)
-                continue
-            mt, mo, coh_pre, coh_post, insc, clean = r
-            if mo == "unmodelled":
-                R.count("model:unmodelled-branch")
-                continue
-            R.count("model:compared")
-            if insc == "t" and clean == "t" and coh_pre == "t":
-                inside += 1
-            if mo != ln["out"] or mt != ln["post"]:
-                R.mismatch("step:" + ln["op"], ln["case"], {"outcome": ln["out"], "post": ln["post"]}, {"outcome": mo, "post": mt})
-            elif (coh_post == "t") != ln["coherent"]:
-                R.mismatch("coherentb-twin", ln["case"], {"oracle_coherent": ln["coherent"]}, {"coherentb": coh_post})
-            elif coh_pre == "t" and insc == "t" and clean == "t" and coh_post != "t":
-                # the theorem C01_step_partial evaluated on a concrete case: cannot happen while the proof compiles
-                R.mismatch("theorem-instance", ln["case"], "model state incoherent inside the theorem's domain", mt)
-        R.extra["modelled_steps_inside_theorem_domain"] = inside
+    chunk = 3000
+    for c0 in range(0, len(jobs), chunk):
+        results = run_pool(jobs[c0:c0 + chunk], procs)
+        lines, metas = [], []
+        for res in results:
+            for k, v in res["hist"].items():
+                R.count(k, v)
+            if res["init_problems"]:
+                R.oracle_fail("coherence:constructor", {"fixture": None, "seed": res["seed"], "ops": []}, {"problems": res["init_problems"][:3]},
+                              {"call": "constructor", "pattern": "none"})
+            for key in res["keys"]:
+                R.case(key, nontrivial=True, sample=None)
+            if res["sample"] is not None and len(R.samples) < 6:
+                R.samples.append(res["sample"])
+            for f in res["fails"]:
+                sg = f["sig"]
+                case = f["case"]
+                if sg["pattern"] in ("none", "indexed-result") and len(new_patterns) < 6:
+                    k = (sg["call"], sg["what"], sg["outcome"])
+                    if k not in new_patterns:
+                        new_patterns[k] = 1
+                        case = shrink(case, sg["pattern"], sg["what"])
+                R.oracle_fail(f["label"], case, f["detail"], sg)
+            for ln in res["lines"]:
+                lines.append(ln["line"])
+                metas.append(ln)
+        del results
+        if ok and lines:
+            mres = R.model(lines, shards=procs)
+            for ln, r in zip(metas, mres):
+                R.traces += 1
+                if not isinstance(r, list) or (r and r[0] == "decode-error"):
+                    R.mismatch("decode", ln["case"], "line accepted by the code", r)
+                    continue
+                mt, mo, coh_pre, coh_post, insc, clean = r
+                if mo == "unmodelled":
+                    R.count("model:unmodelled-branch")
+                    continue
+                R.count("model:compared")
+                if insc == "t" and clean == "t" and coh_pre == "t":
+                    inside += 1
+                if mo != ln["out"] or mt != ln["post"]:
+                    R.mismatch("step:" + ln["op"], ln["case"], {"outcome": ln["out"], "post": ln["post"]}, {"outcome": mo, "post": mt})
+                elif (coh_post == "t") != ln["coherent"]:
+                    R.mismatch("coherentb-twin", ln["case"], {"oracle_coherent": ln["coherent"]}, {"coherentb": coh_post})
+                elif insc != "t":
+                    R.mismatch("in_scope-twin", ln["case"], {"harness_in_scope": True}, {"in_scopeb": insc})
+                elif coh_pre == "t" and clean == "t" and coh_post != "t":
+                    # the theorem C01_step_partial evaluated on a concrete case: cannot happen while the proof compiles
+                    R.mismatch("theorem-instance", ln["case"], "model state incoherent inside the theorem's domain", mt)
+    R.extra["modelled_steps_inside_theorem_domain"] = inside
     R.extra["histories"] = len(jobs)
     R.extra["steps_per_history"] = length
 
